@@ -5,11 +5,11 @@ import (
 	"fmt"
 	"os"
 
-	"verif/harness/core"
 	"path/filepath"
 	"regexp"
 	"sort"
 	"strings"
+	"verif/harness/core"
 
 	"github.com/tdewolff/minify/v2"
 	"github.com/tdewolff/minify/v2/css"
